@@ -53,6 +53,16 @@ type CheckSpec struct {
 	SolverMs    int               `json:"solver_ms"`
 	NoNative    bool              `json:"no_native"`
 	ExpectFail  bool              `json:"expect_fail"` // self-test harnesses
+	Parts       []CheckPart       `json:"parts"`       // optional: several packages
+}
+
+type CheckPart struct {
+	Pkg        string            `json:"pkg"`
+	Files      []string          `json:"files"`
+	ExtraFiles map[string]string `json:"extra_files"`
+	Entries    []string          `json:"entries"`
+	Replace    map[string]string `json:"replace"`
+	Tags       string            `json:"tags"`
 }
 
 type KnownFinding struct {
@@ -149,32 +159,112 @@ func main() {
 		}
 	}
 
-	r := &runner{id: id, spec: spec, tier: *tier, seed: seed, workers: *workers, debug: *debug, known: known, maxPaths: *maxPaths}
-	r.scratch, err = os.MkdirTemp("", "verif-"+id+"-")
-	if err != nil {
-		fatal("%v", err)
+	parts := spec.Parts
+	if len(parts) == 0 {
+		parts = []CheckPart{{Pkg: spec.Pkg, Files: spec.Files, ExtraFiles: spec.ExtraFiles, Entries: spec.Entries, Replace: spec.Replace, Tags: spec.Tags}}
 	}
-	defer os.RemoveAll(r.scratch)
-	r.buildOverlay()
-
-	if *replay != "" {
-		os.Exit(r.doReplay(*replay))
+	var agg *runner
+	code := 0
+	for _, part := range parts {
+		sp := *spec
+		sp.Pkg, sp.Files, sp.ExtraFiles, sp.Entries, sp.Replace = part.Pkg, part.Files, part.ExtraFiles, part.Entries, part.Replace
+		if part.Tags != "" {
+			sp.Tags = part.Tags
+		}
+		r := &runner{id: id, spec: &sp, tier: *tier, seed: seed, workers: *workers, debug: *debug, known: known, maxPaths: *maxPaths}
+		r.scratch, err = os.MkdirTemp("", "verif-"+id+"-")
+		if err != nil {
+			fatal("%v", err)
+		}
+		r.buildOverlay()
+		if *replay != "" {
+			data, err := os.ReadFile(*replay)
+			if err != nil {
+				fatal("%v", err)
+			}
+			var rep Replay
+			json.Unmarshal(data, &rep)
+			found := false
+			for _, e := range sp.Entries {
+				if e == rep.Harness {
+					found = true
+				}
+			}
+			if !found {
+				os.RemoveAll(r.scratch)
+				continue
+			}
+			c := r.doReplay(*replay)
+			os.RemoveAll(r.scratch)
+			os.Exit(c)
+		}
+		r.load()
+		entries := sp.Entries
+		if *onlyEntry != "" {
+			entries = nil
+			for _, e := range sp.Entries {
+				if e == *onlyEntry {
+					entries = []string{e}
+				}
+			}
+			if entries == nil {
+				os.RemoveAll(r.scratch)
+				continue
+			}
+		}
+		c := r.runAll(entries)
+		os.RemoveAll(r.scratch)
+		if c == 1 || (c == 2 && code == 0) {
+			code = c
+		}
+		if agg == nil {
+			agg = r
+		} else {
+			agg.merge(r)
+		}
+		r.prog, r.pkg = nil, nil
 	}
-
-	r.load()
-	entries := spec.Entries
-	if *onlyEntry != "" {
-		entries = []string{*onlyEntry}
+	if agg == nil {
+		fatal("nothing to run")
 	}
-	code := r.runAll(entries)
+	r := agg
 	r.wall = time.Since(start)
 	if !*noEvidence {
 		r.writeEvidence()
 	}
 	fmt.Printf("check %s tier=%s: paths=%d steps=%d queries=%d solver=%.1fs wall=%.1fs exit=%d\n", id, *tier, r.totalPaths, r.totalSteps, r.totalQueries, r.solverTime.Seconds(), r.wall.Seconds(), code)
-	os.RemoveAll(r.scratch)
 	pprof.StopCPUProfile()
 	os.Exit(code)
+}
+
+func (r *runner) merge(o *runner) {
+	r.totalPaths += o.totalPaths
+	r.totalQueries += o.totalQueries
+	r.totalSteps += o.totalSteps
+	r.solverTime += o.solverTime
+	r.qSat += o.qSat
+	r.qUnsat += o.qUnsat
+	r.qUnknown += o.qUnknown
+	for k, v := range o.pathStatus {
+		r.pathStatus[k] += v
+	}
+	for k, v := range o.fnEncoded {
+		r.fnEncoded[k] += v
+		r.fnInstrs[k] = o.fnInstrs[k]
+	}
+	r.samples = append(r.samples, o.samples...)
+	r.validated += o.validated
+	r.violations += o.violations
+	r.knownHits = append(r.knownHits, o.knownHits...)
+	r.inconclusive = append(r.inconclusive, o.inconclusive...)
+	for k, v := range o.reachLabels {
+		r.reachLabels[k] += v
+	}
+	r.assertsChecked += o.assertsChecked
+	r.trivialAsserts += o.trivialAsserts
+	r.branches += o.branches
+	r.perEntry = append(r.perEntry, o.perEntry...)
+	r.loadTime += o.loadTime
 }
 
 type runner struct {
